@@ -100,6 +100,38 @@ def corner_key(k, region):
                for it, hi in zip(k.items, region))
 
 
+def _assembled_field(p, v):
+    """v is what Wavefront.field computes, written out: every field of wavefront.data inserted (complex, weight 1) into
+    zeros of the wavefront's shape"""
+    a = v.single_atom() if isinstance(v, Poly) else None
+    if a is None or a[0] != 'loop':
+        return False
+    name = str(a[1]).split('@')[0]
+    for lp in p.state.loops:
+        pre = lp['pre'].get(name)
+        if pre is None or lp.get('iter') not in (nf.attr(WF, 'data'), nf.attr(WF, '_data')):
+            continue
+        pa = pre.single_atom() if isinstance(pre, Poly) else None
+        if pa is None or not is_app(pa, 'zeros') or pa[2][0] not in (nf.attr(WF, 'shape'), nf.attr(WF, '_shape')) or 'complex' not in repr(pa[2]):
+            continue
+        good = bool(lp['ends'])
+        for ends in lp['ends']:
+            e = ends.get(name)
+            ea = e.single_atom() if isinstance(e, Poly) else None
+            if ea is None or not is_app(ea, 'call:field.insert'):
+                good = False
+                continue
+            b = {k.items[0].value: k.items[1] for k in ea[2]}
+            fa = b.get('field').single_atom() if isinstance(b.get('field'), Poly) else None
+            oa = b.get('out').single_atom() if isinstance(b.get('out'), Poly) else None
+            good = good and fa is not None and fa[0] == 'idx' and Poly.atom(fa[1]) in (nf.attr(WF, 'data'), nf.attr(WF, '_data')) and \
+                oa is not None and oa[:2] == a[:2] and b.get('intensity') in (FALSE, None) and \
+                (b.get('weight') is None or (isinstance(b.get('weight'), Poly) and b.get('weight').const_value() == 1))
+        if good:
+            return True
+    return False
+
+
 def run(chk, repo, tier):
     from .common import no_hidden_state
     no_hidden_state(chk, repo, 'C09')
@@ -326,8 +358,8 @@ def run(chk, repo, tier):
            f'_fft2({fmt(f2s[0].bound.get("x"))[:120]})' if f2s else '', f.loc())
     pads = pn.calls('util.pad')
     f2n = pn.calls('propagate._fft2')
-    ok_p = len(pads) == 1 and pads[0].bound.get('array') in (nf.attr(WF, 'field'),) and pads[0].bound.get('shape') == fft_shape \
-        and len(f2n) == 1 and f2n[0].bound.get('x') == pads[0].result
+    ok_p = len(pads) == 1 and (pads[0].bound.get('array') in (nf.attr(WF, 'field'),) or _assembled_field(pn, pads[0].bound.get('array'))) \
+        and pads[0].bound.get('shape') == fft_shape and len(f2n) == 1 and f2n[0].bound.get('x') == pads[0].result
     chk.ob('C09-f', 'N-embedding', f.key, 'without scratch: pad(wavefront.field, fft_shape) is transformed', ok_p, '', f.loc())
     from .common import Remap
     from .c20 import pad_rules
